@@ -48,7 +48,9 @@ type c19Cont struct {
 
 var c19Keys = []string{"a", "b", "c"}
 
-func ruleVal(v int) schema.RuleASTNode { return schema.RuleASTNode{TokenType: "number", Value: fmt.Sprint(v)} }
+func ruleVal(v int) schema.RuleASTNode {
+	return schema.RuleASTNode{TokenType: "number", Value: fmt.Sprint(v)}
+}
 func ruleInt(v schema.RuleASTNode) int {
 	n := 0
 	fmt.Sscan(v.Value, &n)
@@ -114,7 +116,10 @@ func c19Containers() []*c19Cont {
 			return c19KV{strKey(it.Key), ruleInt(it.Value)}, ok
 		},
 		each: func(c any) (out []c19KV) {
-			c.(*schema.RuleASTNodes).Each(func(k string, v schema.RuleASTNode) error { out = append(out, c19KV{strKey(k), ruleInt(v)}); return nil })
+			c.(*schema.RuleASTNodes).Each(func(k string, v schema.RuleASTNode) error {
+				out = append(out, c19KV{strKey(k), ruleInt(v)})
+				return nil
+			})
 			return
 		},
 		eachS: func(c any) (out []c19KV) {
@@ -303,12 +308,12 @@ func (o c19Op) String() string {
 }
 
 var c19Preds = map[string]func(k, v int) bool{
-	"none":  func(k, v int) bool { return false },
-	"all":   func(k, v int) bool { return true },
-	"key=a": func(k, v int) bool { return k == 0 },
-	"key!=a": func(k, v int) bool { return k != 0 },
+	"none":    func(k, v int) bool { return false },
+	"all":     func(k, v int) bool { return true },
+	"key=a":   func(k, v int) bool { return k == 0 },
+	"key!=a":  func(k, v int) bool { return k != 0 },
 	"value=1": func(k, v int) bool { return v == 1 },
-	"key=c": func(k, v int) bool { return k == 2 },
+	"key=c":   func(k, v int) bool { return k == 2 },
 }
 var c19PredNames = []string{"none", "all", "key=a", "key!=a", "value=1", "key=c"}
 
@@ -613,8 +618,10 @@ func init() {
 		Rule: "operations Set/Update/Delete(present and absent)/Filter(6 predicates)/Map on keys {a,b,c} x values {1,2} for RuleASTNodes, ASTNodes, Constraints; Add and NewStringSet(every argument list of <=3 keys) for StringSet; after every step Len/Has/Get/GetValue/Each/EachSafe/Find/MarshalJSON are compared with an insertion-ordered dictionary; " +
 			"states = distinct (impl dump, reference) pairs, non-trivial = histories of length >= 2",
 		Shards: func(string) int { return 16 },
-		Bounds: func(tier string) map[string]any { return map[string]any{"sequence_depth": c19Depth(tier), "keys": 3, "values": 2} },
-		Run:    c19Run,
+		Bounds: func(tier string) map[string]any {
+			return map[string]any{"sequence_depth": c19Depth(tier), "keys": 3, "values": 2}
+		},
+		Run: c19Run,
 		Replay: func(w *core.W, v *core.Violation) {
 			var wit c19Witness
 			if stdjson.Unmarshal(v.Witness, &wit) != nil {
